@@ -1,15 +1,19 @@
 """C01 — message payloads survive serialize/parse unchanged, with consistent sizes."""
-import glob, json, os, subprocess
+import glob, json, os, struct, subprocess
 from concurrent.futures import ThreadPoolExecutor
 import vf
+from translators import gen_c01
 
 LEVEL = 'proof'
 HARNESS = os.path.join(vf.VERIF, 'harness/py/c01_laws.py')
 NOISE = ('leap', 'Leap')
 
 
+DESC_JSON = os.path.join(vf.BUILD, 'c01', 'descriptions.json')
+
+
 def _impl(args, env_extra=None, timeout=3000):
-    env = dict(vf.IMPL_ENV)
+    env = dict(vf.IMPL_ENV, C01_DESC=DESC_JSON)
     env.update(env_extra or {})
     p = subprocess.run([vf.PY, HARNESS] + args, capture_output=True, text=True, timeout=timeout, env=env)
     err = '\n'.join(l for l in p.stderr.split('\n') if l and not any(n in l for n in NOISE))
@@ -95,7 +99,182 @@ def floor(ctx, keys, seed):
     return res
 
 
+# ------------------------------------------------------------------------------------------------
+# correspondence IMPL <-> extracted MODEL
+# ------------------------------------------------------------------------------------------------
+
+def flat(c, path='', out=None):
+    if out is None:
+        out = {}
+    if isinstance(c, dict):
+        for k, v in c.items():
+            flat(v, path + '.' + k, out)
+    elif isinstance(c, list):
+        out[path + '.len'] = len(c)
+        for i, v in enumerate(c):
+            flat(v, '%s[%d]' % (path, i), out)
+    else:
+        out[path] = c
+        if isinstance(c, str) and c.startswith('b:'):
+            out[path + '.len'] = (len(c) - 2) // 2
+    return out
+
+
+def _hx(t):
+    return -int(t[1:], 16) if t.startswith('-') else int(t, 16)
+
+
+def model_token(it, t):
+    """model field value (text) -> comparable token"""
+    if t == 'nan':
+        return 'nan'
+    z = _hx(t)
+    k = it['conv'][0]
+    if k == 'f32':
+        return 'nan' if (z >> 23) & 0xFF == 0xFF and z & 0x7FFFFF else z
+    if k in ('f64', 'ts'):
+        return 'nan' if (z >> 52) & 0x7FF == 0x7FF and z & ((1 << 52) - 1) else z
+    return z
+
+
+def impl_token(it, c):
+    """implementation field value (canonical) -> the token the model should have produced"""
+    k = it['conv'][0]
+    if c is None:
+        return ('missing',)
+    if k == 'int':
+        return c if isinstance(c, int) else ('not-an-int', c)
+    if k == 'iscaled':
+        m = it['conv'][1]
+        return c // m if isinstance(c, int) and c % m == 0 else ('not-a-multiple', c)
+    if c == 'nan':
+        return 'nan'
+    if not (isinstance(c, str) and c.startswith('f:')):
+        return ('not-a-float', c)
+    bits = int(c[2:], 16)
+    x = struct.unpack('>d', bytes.fromhex(c[2:]))[0]
+    if k in ('f64', 'ts'):
+        return bits
+    if k == 'f32':
+        try:
+            b = struct.unpack('<I', struct.pack('<f', x))[0]
+        except OverflowError:
+            return ('not-a-binary32', c)
+        return b if struct.unpack('<f', struct.pack('<I', b))[0] == x else ('not-a-binary32', c)
+    if k == 'scaled':
+        sc = it['conv'][1]
+        z = int(round(x / sc))
+        return z if z * sc == x else ('not-on-the-scale-grid', c)
+    return ('conv?', k)
+
+
+def parse_env(text):
+    out = {}
+    if not text:
+        return out
+    for ent in text.split(';'):
+        i, _, v = ent.partition('=')
+        out[int(i)] = v
+    return out
+
+
+def compare_env(desc, envtext, fl):
+    """first difference between the model's decoded values and the implementation's attributes, or None"""
+    env = parse_env(envtext)
+    for it in desc['items']:
+        if it['t'] == 'field':
+            mt = model_token(it, env.get(it['id'], '?'))
+            if it.get('is_count'):
+                for lp in it.get('len_paths', []):
+                    if fl.get(lp) != mt:
+                        return '%s: model count %r, implementation length %r' % (lp, mt, fl.get(lp))
+                for pth in it.get('paths', []):
+                    if pth in fl and fl[pth] != mt:
+                        return '%s: model %r, implementation %r' % (pth, mt, fl[pth])
+                continue
+            pth = it['paths'][0]
+            im = impl_token(it, fl.get(pth))
+            if im != mt:
+                return '%s: model %r, implementation %r (%r)' % (pth, mt, im, fl.get(pth))
+        elif it['t'] == 'bytes':
+            if env.get(it['id']) != fl.get(it['path']):
+                return '%s: model %r, implementation %r' % (it['path'], env.get(it['id']), fl.get(it['path']))
+        elif it['t'] == 'counted':
+            txt = env.get(it['id'], '')
+            recs = [r for r in txt[3:-1].split('|')] if txt.startswith('r:[') and len(txt) > 4 else []
+            if fl.get(it['path'] + '.len') != len(recs):
+                return '%s: model %d records, implementation %r' % (it['path'], len(recs), fl.get(it['path'] + '.len'))
+            for j, r in enumerate(recs):
+                rv = dict((int(a.partition('=')[0]), a.partition('=')[2]) for a in r.split(',') if a)
+                for b in it['body']:
+                    if b['t'] != 'field':
+                        continue
+                    pth = '%s[%d]%s' % (it['path'], j, b['paths'][0])
+                    mt, im = model_token(b, rv.get(b['id'], '?')), impl_token(b, fl.get(pth))
+                    if mt != im:
+                        return '%s: model %r, implementation %r' % (pth, mt, im)
+    return None
+
+
+def correspondence(ctx, res, gen):
+    """every evaluated input of every described class: IMPL unpack/pack/calcsize vs MODEL decode/encode/sizeof"""
+    model = vf.build_extracted('c01', 'C01', 'c01_driver.ml')
+    descs = gen['descriptions']
+    lines, meta = [], []
+    for key, d in descs.items():
+        r = res.get(key)
+        if r is None:
+            continue
+        for c in r['cases']:
+            lines.append('D %d %s' % (d['index'], c['hex'] or '-')); meta.append((key, c, True))
+        for f in r['fails']:
+            lines.append('D %d %s' % (d['index'], f['hex'] or '-')); meta.append((key, f, False))
+    outs = vf.run_parallel(model, lines)
+    nbad = 0
+    for (key, c, parsed), ln, out in zip(meta, lines, outs):
+        d = descs[key]
+        ctx.count('correspondence:' + ('parsed' if parsed else 'rejected'))
+        case = {'key': key, 'hex': c['hex'], 'model': out[:600]}
+        if not parsed:
+            if out != 'FAIL':
+                # the struct module wants the whole fixed part present even when a count makes the parse fail earlier; both refuse
+                nbad += 1
+                ctx.broken_correspondence('%s: the implementation refuses to parse (%s) an input the model decodes' % (key, c['exc']), case)
+            continue
+        if not out.startswith('OK '):
+            nbad += 1
+            ctx.broken_correspondence('%s: the model does not decode an input the implementation parses' % key, dict(case, impl_n=c['n']))
+            continue
+        f = dict(x.split('=', 1) for x in out[3:].split(' ', 4))
+        ctx.count('correspondence:stamps-in-domain' if f['dom'] == '1' else 'correspondence:stamps-outside-domain')
+        diffs = []
+        if int(f['n']) != c['n']:
+            diffs.append('bytes consumed: model %s, implementation %s' % (f['n'], c['n']))
+        ip = c.get('pack')
+        if isinstance(ip, str) and not ip.startswith('raise') and ip != 'refusal':
+            mp = '' if f['pack'] == '-' else f['pack']
+            if mp != ip:
+                diffs.append('pack(): model %s, implementation %s' % (mp[:80], ip[:80]))
+        elif isinstance(ip, str) and ip.startswith('raise') and f['pack'] != 'FAIL':
+            diffs.append('pack(): implementation raises, model writes %s' % f['pack'][:80])
+        if isinstance(c.get('calcsize'), int) and f['size'] != 'FAIL' and int(f['size']) != c['calcsize'] and c['ok']:
+            diffs.append('calcsize: model %s, implementation %s' % (f['size'], c['calcsize']))
+        dv = compare_env(d, f.get('env', ''), flat(c['fields']))
+        if dv:
+            diffs.append('field ' + dv)
+        if diffs:
+            nbad += 1
+            ctx.broken_correspondence('%s: model and implementation differ on input %s: %s' % (key, c['hex'][:80], '; '.join(diffs)), dict(case, diffs=diffs))
+    ctx.coverage['correspondence_mismatches'] = nbad
+    return nbad
+
+
 def run(ctx):
+    gen = gen_c01.generate()
+    ctx.coverage['described_classes'] = sorted(gen['descriptions'])
+    ctx.coverage['law_only_classes'] = gen['inexpressible']
+    if not ctx.coq():
+        ctx.broken_proof()
     seed = ctx.rng.randrange(1 << 30)
     rc, so, se = _impl(['list'])
     if rc != 0 or not so.strip().startswith('['):
@@ -104,6 +283,7 @@ def run(ctx):
     ctx.coverage['classes'] = [k for k in keys if '[' not in k]
     ctx.coverage['container_subpayloads'] = [k for k in keys if '[' in k]
     res = floor(ctx, keys, seed)
+    correspondence(ctx, res, gen)
     ctx.sample({k: {'inputs': res[k]['evals'], 'parsed': res[k]['parsed'], 'parse_fail': res[k]['parse_fail']} for k in list(res)[:6]})
     ctx.coverage['rule'] = ('every class registered in MessagePayload.message_type_to_class + MessageHeader, Timestamp, MeasurementDetails, SatelliteInfo + one key per '
                             'registered ConfigType / InterfaceConfigType / FaultType sub-payload inside SetConfigMessage, ConfigResponseMessage, FaultControlMessage. '
